@@ -190,7 +190,11 @@ def run(shard, rec, tier, seed):
         earlier = collision_tree(seed, ti - 1000 + 1) if 1000 <= ti < 2000 else campaign.moved_revision(spec)
         if earlier is not None and grammar.check(earlier):
             earlier = None
-    st, ok, err, out = stage.full(files, do_import=False, spelling=spelling, stale_output=(ti % 2 == 0), earlier_output_files=S.render(earlier) if earlier is not None else None)
+    # ... and every fourth is staged below a directory that is itself called eolib (a checkout cloned under that name)
+    below = "eolib" if ti % 4 == 2 else None
+    if below:
+        rec.count("trees-staged-below-a-directory-named-eolib")
+    st, ok, err, out = stage.full(files, do_import=False, spelling=spelling, stale_output=(ti % 2 == 0), earlier_output_files=S.render(earlier) if earlier is not None else None, below=below)
     if ti % 2 == 0:
         rec.count("trees-generated-over-stale-output")
     if earlier is not None:
